@@ -84,7 +84,7 @@ func c15SmallConfigs() []cfg.Config {
 	b := cfg.Config{
 		Meta: cfg.Meta{Pkg: sp("app"), Functions: []cfg.KV{{K: "cnt", V: "fx/libx.Count"}}},
 		Params: []cfg.Param{
-			{Name: "p0", Val: cfg.Str(`%todo("fill me in")%`)},
+			{Name: "p0", Val: cfg.Str(`%todo("fill me,in (1,000) ,ok")%`)}, // the given message, with separators and brackets inside the string
 			{Name: "p1", Val: cfg.Str(`%cnt("k1", 1)%%p0%`)},
 		},
 		Services: []cfg.Service{
@@ -156,6 +156,12 @@ func drawOverrideHistory(rt *rapid.T, c cfg.Config, maxLen int) []fx.Op {
 func TestC15(t *testing.T) {
 	col := ev.Get()
 	stored := func(path string) {
+		if payloadHas(t, path, "config") { // a verdict case stored as the configuration itself
+			var cc cfgCase
+			loadRegress(t, path, &cc)
+			verdictEvalAndClean(t, cc)
+			return
+		}
 		var rc behCase
 		loadRegress(t, path, &rc)
 		if len(rc.Members) == 1 && len(rc.Members[0].Script.Ops) == 0 && len(rc.Members[0].Files) == 1 {
